@@ -5,7 +5,8 @@ Property theorems about `EdbVerif.Desc` (`Model/Desc.lean`), the model of the
 descriptor encoder building blocks, of two decoders and of the id strings of
 `edb/server/compiler/sertypes.py`.  Helper lemmas: `Lemmas/DescWire.lean`
 (one block), `Lemmas/DescEnc.lean` (the stream, the position table,
-de-duplication, annotations), `Lemmas/DescId.lean` (id strings).
+de-duplication, annotations), `Lemmas/DescId.lean` (id strings),
+`Lemmas/DescFrame.lean` (the ≥2.0 length prefixes).
 
 Reading guide.  `Desc` = a descriptor tree (node = kind, id, optional
 name/schema_defined, flat payload; `pre` / `post` children = described before /
@@ -29,6 +30,7 @@ and ids are faithful inside `d` (`faithful`: equal ids ⇒ equal sub-descriptors
 -/
 import EdbVerif.Lemmas.DescEnc
 import EdbVerif.Lemmas.DescId
+import EdbVerif.Lemmas.DescFrame
 
 namespace EdbVerif.C14
 open EdbVerif.Desc
@@ -156,6 +158,55 @@ theorem C14_anno_rejected (f : Id → Bytes) (d : Desc) (h : WFDesc .v1 d) (hd :
     decodeReal .v1 (encodeA .v1 (some f) d) = none :=
   Desc.anno_rejected f d h hd hne
 
+/-! ### the ≥ 2.0 length prefixes frame the stream
+
+`frame b = uint32(len b) ++ b` (`_finish_typedesc`); `frames n bs` = a client that
+looks at the length prefixes ONLY (skip `len` bytes, again), `n` = fuel;
+`structWalk m p n bs` = the structural reader `parseFlat` (mode `m`; it reads and
+ignores the prefix) block after block, returning the chunks it consumed.
+`BlocksFit .v2 d`: every body is shorter than 2^32 bytes — the guard of
+`_uint32_packer(len(desc))` that `WFDesc` does not contain (an enum with 65535
+labels of 2^32-1 bytes passes `nodesOK`); decidable, a function of header and
+child counts only (`C14_body_size`). -/
+
+/-- `len(desc)` does not depend on the positions written into the block: it is a
+    function of the node's header and its numbers of children. -/
+theorem C14_body_size (p : Proto) (f : Flat) :
+    (body p f).length = bodySize p f.h f.pre.length f.post.length :=
+  Desc.body_length p f
+
+/-- One block, whatever follows: the `uint32` prefix reads back as EXACTLY the byte
+    length of the body, and the body is what follows the prefix. -/
+theorem C14_frame_block (f : Flat) (rest : Bytes)
+    (hfit : bodySize .v2 f.h f.pre.length f.post.length < 4294967296) :
+    block .v2 f = frame (body .v2 f) ∧
+    rdU32 (block .v2 f ++ rest) = some ((body .v2 f).length, body .v2 f ++ rest) :=
+  ⟨rfl, Desc.rdU32_block f rest hfit⟩
+
+/-- **Framing.**  For every well-formed descriptor tree (protocol ≥ 2.0, with or
+    without `inline_typenames`) the stream `describe()` returns is a concatenation of
+    `uint32(len body) ++ body`: walking by the length prefixes alone succeeds, ends
+    exactly at the end of the stream, and visits one block per entry of
+    `uuid_to_pos` (= per distinct sub-descriptor, `C14_dedupe`).  A client can skip
+    any descriptor whose tag it does not know. -/
+theorem C14_frames (dn : Option (Id → Bytes)) (d : Desc) (h : WFDesc .v2 d) (hb : BlocksFit .v2 d) :
+    ∃ bodies : List Bytes,
+      frames (encodeA .v2 dn d).length (encodeA .v2 dn d) = some bodies ∧
+      bodies.length = (enc .v2 none {} d).tbl.length ∧
+      encodeA .v2 dn d = bodies.flatMap frame :=
+  Desc.frames_encodeA dn d h hb
+
+/-- **Skip form.**  The reader that uses ONLY the length prefixes and the structural
+    reader (both decoders: `m`) cut the stream at the same places: the chunks
+    `parseFlat` consumes are exactly `prefix ++ body` for the bodies `frames` yields. -/
+theorem C14_skip (m : Mode) (dn : Option (Id → Bytes)) (d : Desc) (h : WFDesc .v2 d) (hs : SqlOK m d)
+    (hb : BlocksFit .v2 d) :
+    ∃ bodies : List Bytes,
+      frames (encodeA .v2 dn d).length (encodeA .v2 dn d) = some bodies ∧
+      structWalk m .v2 (encodeA .v2 dn d).length (encodeA .v2 dn d) = some (bodies.map frame) ∧
+      bodies.length = (enc .v2 none {} d).tbl.length :=
+  Desc.skip_encodeA m dn d h hs hb
+
 /-! ### Non-vacuity -/
 
 /-- `tuple<a: int64, b: str, c: int64>` (protocol ≥ 2.0) is well formed … -/
@@ -167,6 +218,15 @@ example : decodeReal .v2 (encode .v2 exTuple) = some exTuple :=
   C14_roundtrip_real _ _ exTuple_wf exTuple_decodable
 /-- … and its repeated `int64` is emitted once: 3 blocks for 4 nodes. -/
 example : (enc .v2 none {} exTuple).tbl.length = 3 ∧ (subs exTuple).length = 4 := by decide
+/-- … its bodies fit the prefix, so the framing theorems apply; evaluated: the walk by
+    prefixes finds 3 bodies (25 + 25 + 48 bytes, + 3 × 4 prefix bytes) in the 110-byte stream -/
+example : BlocksFit .v2 exTuple := exTuple_blocksFit
+example : ∃ bodies, frames (encodeA .v2 none exTuple).length (encodeA .v2 none exTuple) = some bodies ∧
+    structWalk .real .v2 (encodeA .v2 none exTuple).length (encodeA .v2 none exTuple) = some (bodies.map frame) ∧
+    bodies.length = (enc .v2 none {} exTuple).tbl.length :=
+  C14_skip .real none exTuple exTuple_wf (Or.inr exTuple_decodable) exTuple_blocksFit
+example : (frames (encode .v2 exTuple).length (encode .v2 exTuple)).map (·.map List.length) = some [25, 25, 48] ∧
+    (encode .v2 exTuple).length = 110 := by decide
 /-- a < 2.0 tree with an annotation: a derived scalar over `int64` -/
 example : WFDesc .v1 exDerived ∧ Decodable exDerived ∧
     (enc .v1 (some fun _ => [109]) {} exDerived).ann ≠ [] := ⟨exDerived_wf, exDerived_decodable, by decide⟩
